@@ -157,6 +157,7 @@ CH2Problems(raw1, raw2, hrr) ==
      (IF h1.vers # h2.vers \/ h1.random # h2.random \/ h1.sid # h2.sid \/ h1.suites # h2.suites \/ h1.comp # h2.comp
         THEN {"ch2-header-changed"} ELSE {})
      \cup (IF \E t \in (T1 \cap T2) \ MayChange : ExtByType(h1,t) # ExtByType(h2,t) THEN {"ch2-extension-body-changed"} ELSE {})
+     \cup (IF HasExtT(h1, 65037) /\ ExtByType(h1, 65037) # ExtByType(h2, 65037) THEN {"ch2-ech-grease-changed"} ELSE {})
      \cup (IF (T1 \ T2) \ {21, 42, 41} # {} THEN {"ch2-extension-removed"} ELSE {})
      \cup (IF (T2 \ T1) \ {44, 21} # {} THEN {"ch2-extension-added"} ELSE {})
      \cup (IF SelectSeq(ExtTypes(h1), LAMBDA t : t \in T2 /\ t # 21) # SelectSeq(ExtTypes(h2), LAMBDA t : t \in T1 /\ t # 21)
